@@ -4,7 +4,10 @@ import splitcommon as SC
 
 ENGINE = "roundtrip"
 RULE = ("grammar derivations (DESIGN.md section 3; duplicate-free; incl. resolved / unresolved / chained @string references, "
-        "concatenations, numeric values, nested braces, multi-line values, comments between blocks) x BibtexFormat settings "
+        "concatenations, numeric values, nested braces, multi-line values, comments between blocks; plus a stream whose field names, "
+        "entry keys and @string keys are drawn from names with a meaning of their own in the model classes ('ID', 'ENTRYTYPE', attribute / "
+        "metadata names, the int-rule field names), from letter-case variants of one another, and from the entry types / keys of the same "
+        "document) x BibtexFormat settings "
         "(indent in {'', tab, 2/4 spaces}, value_column in {0,1,7,20,'auto'}, trailing_comma, whitespace-only block_separator in "
         "{'', '\\n', '\\n\\n', ' \\n\\t\\n'}); default parse and write stacks; distinct = distinct (document, format); "
         "non-trivial = the document has an entry with a field, or at least two blocks")
@@ -50,7 +53,48 @@ def generate(rng, tier):
                                                         "fmt": {"indent": ind, "column": col, "trailing": False, "sep": "\n\n"}}})
     for t in ["@STR\u0130NG{k, a = {b}}", "@comment{x}\n@\u0130{k}\n@string{s = {v}}"]:
         cases.append({"stream": "K9", "input": {"text": t, "n_items": 2, "fmt": {"indent": "\t", "column": "auto", "trailing": False, "sep": "\n\n"}}})
+    # field names / entry keys / string keys that collide with names the model classes give a meaning of their own
+    # (Entry's mapping interface answers "ID" / "ENTRYTYPE" itself; attribute and metadata names; the int-rule field names),
+    # with each other up to letter case, and with the entry key / entry type / @string keys of the same document
+    for t in RESERVED_DOCS:
+        for ind, col in (("\t", "auto"), ("", 0), ("  ", 7)):
+            for tr in (False, True):
+                cases.append({"stream": "names", "input": {"text": t, "n_items": 2,
+                                                           "fmt": {"indent": ind, "column": col, "trailing": tr, "sep": "\n\n"}}})
+    n = 150 if tier == "quick" else 4000
+    made = 0
+    while made < n:
+        text, items = G.gen_doc(rng, max_items=rng.choice([2, 4, 7]), depth=rng.randint(0, 2), string_keys=NAME_POOL + ["jan", "mon"],
+                                field_names=NAME_POOL, entry_keys=NAME_POOL + ["k1", "smith2020", "a.b"],
+                                kinds=["entry", "entry", "entry", "entry", "string", "comment"],
+                                bare_pool=["jan", "mon", "ID", "id", "ENTRYTYPE", "year", "12", "undefined"])
+        if not SC.doc_is_nodup(items):
+            continue
+        if not any(it["kind"] == "entry" and it["fields"] for it in items):
+            continue
+        fmt = {"indent": rng.choice(INDENTS), "column": rng.choice(COLUMNS), "trailing": rng.random() < 0.5, "sep": rng.choice(SEPS)}
+        cases.append({"stream": "names", "input": {"text": text, "fmt": fmt, "n_items": len(items)}})
+        made += 1
     return cases
+
+
+NAME_POOL = ["ID", "ENTRYTYPE", "id", "Id", "entrytype", "EntryType", "key", "KEY", "entry_type", "fields", "fields_dict", "raw",
+             "start_line", "value", "parser_metadata", "removed_enclosing", "author", "Author", "AUTHOR", "title", "year", "Year", "YEAR",
+             "month", "Month", "volume", "number", "pages", "edition", "chapter", "issue", "article", "misc", "string", "comment",
+             "preamble", "jan", "k1", "0", "_"]
+
+RESERVED_DOCS = [
+    "@misc{doe2019, ID = {8841}, ENTRYTYPE = {dataset}, author = {Doe, Jane}, year = 2019}",
+    "@misc{doe2019,\n  ENTRYTYPE = \"dataset\",\n  ID = 8841\n}",
+    "@article{ID, ID = {x}}\n@article{ENTRYTYPE, ENTRYTYPE = {y}, ID = {z}}",
+    "@article{k, id = {a}, Id = {b}, ID = {c}, iD = {d}}",
+    "@article{k, entrytype = {a}, ENTRYTYPE = {b}, EntryType = {c}}",
+    "@string{ID = {sid}}\n@string{ENTRYTYPE = {stype}}\n@book{b, ID = ID, ENTRYTYPE = ENTRYTYPE # {!}, x = ID # ENTRYTYPE}",
+    "@book{b, key = {a}, entry_type = {b}, fields = {c}, raw = {d}, start_line = 7, parser_metadata = {e}, value = {f}}",
+    "@book{author, author = {author}, Author = {B}, AUTHOR = \"C\", book = {book}}",
+    "@a{k, year = {1999}, Year = 1999, YEAR = \"1999\", month = jan, Month = {jan}, MONTH = 12}",
+    "@a{k1, ID = {}, ENTRYTYPE = \"\"}\n% remark\n@a{k2, ENTRYTYPE = {a}}\n@a{k3, ID = {k3}, ENTRYTYPE = {a}}",
+]
 
 
 def mkfmt(d):
@@ -68,8 +112,11 @@ def impl(case):
     inp = case["input"]
     text = inp["text"]
 
+    snap = []
+
     def go():
         l1 = bibtexparser.parse_string(text)
+        snap.append(SC.content(l1))          # what was handed to the writer, taken before writing
         t1 = bibtexparser.write_string(l1, bibtex_format=mkfmt(inp["fmt"]))
         l2 = bibtexparser.parse_string(t1)
         t2 = bibtexparser.write_string(l2, bibtex_format=mkfmt(inp["fmt"]))
@@ -90,7 +137,7 @@ def impl(case):
     l1, t1, l2, t2 = r[1]
     rec["sx_out"] = implutil.r_ok([enc.enc_str(t1), [enc.enc_block(b, abstract_prev=True) for b in l2.blocks], enc.enc_str(t2)])
     ok, detail = True, ""
-    c1, c2 = SC.content(l1), SC.content(l2)
+    c1, c2 = snap[0], SC.content(l2)
     if l1.failed_blocks:
         ok, detail = False, "failed block when parsing a well-formed document"
     elif c1 != c2:
